@@ -426,6 +426,19 @@ def apply_op(impl, scope, op):
   for x in new_results:
     impl.roots.append(x)
     info['new_roots'].append(x)
+  # an old root may sit inside a tree that was itself removed by this operation (and is a root now)
+  for i in range(old_n):
+    r = impl.roots[i]
+    if r is None: continue
+    inside = [False]
+    def visit2(x, parent, key):
+      if x is r and parent is not None: inside[0] = True
+    for j, o in enumerate(impl.roots):
+      if o is not None and j != i:
+        walk(o, visit2)
+    if inside[0]:
+      impl.roots[i] = None
+      impl.moved[i] = r
   if exc is not None:
     return [1, err_code(exc)], info
   return [0, impl.enc_ret(ret)], info
@@ -614,6 +627,8 @@ CORPUS = {
                              (sc(aw=[True]), [DSET, P(0), 0, enc_key('a'), V(4)]), (sc(aw=[False, None]), [DSET, P(0), 0, enc_key('a'), V(5)]), (NS, [DPOP, P(0), enc_key('a'), []])),
   'dict-key-with-path-characters': case([{}], (NS, [DSET, P(0), 0, enc_key('a]'), V({'x': 1})]), (NS, [DSET, P(0), 0, enc_key('[q'), V(2)]),
                                         (NS, [DSET, P(0, 'a]'), 0, enc_key('b.c'), V([1])]), (NS, [DDEL, P(0), 0, enc_key('a]')])),
+  'root-inside-removed-tree': case([{'a': 1}, [{'x': 1}]], (NS, [DSET, P(1, 0), 0, enc_key('k'), R(0)]), (NS, [LDEL, P(1), 0]),
+                                   (NS, [DPOP, P(2), enc_key('k'), []]), (NS, [DSET, P(0), 0, enc_key('b'), V(2)])),
   'missing-in-list': case([[1, 2, 3]], (sc(notify=[False]), [LSET, P(0), 1, V('MISSING')]), (NS, [CLONE, P(0), 0]), (NS, [LAPPEND, P(0), V(4)])),
 }
 
